@@ -97,8 +97,8 @@ func gen(tier string, seed int64) []mon.Case {
 	for L := 1; L <= maxLen; L++ {
 		total := powOps(L)
 		parts := int64(1)
-		if total > 4000 {
-			parts = (total + 3999) / 4000
+		if total > 40000 {
+			parts = (total + 39999) / 40000
 		}
 		for p := int64(0); p < parts; p++ {
 			add("seq", Desc{Kind: "seq", Len: L, Lo: total * p / parts, Hi: total * (p + 1) / parts})
